@@ -135,7 +135,6 @@ func VerifC03_OneHop() {
 	case 1:
 		o0, o1 := verifInt64("o0"), verifInt64("o1")
 		verifAssume(o0 >= 0 && o0 < 100 && o1 < 100 && o1 >= -1)
-		verifAssume(o0 != o1) // empty ranges cannot be expressed in an HTTP Range header (known finding, see C01)
 		rd, e1 := regD.GetBlobRange(ctx, repo, dig, o0, o1)
 		rh, e2 := c.GetBlobRange(ctx, repo, dig, o0, o1)
 		verifAssert((e1 == nil) == (e2 == nil), "GetBlobRange-same-success")
